@@ -410,6 +410,8 @@ def run_scenarios(work, scenarios, files=None):
                             **({"VERIF_LINK": "1"} if LINK_EVENTS else {})), synctest=True)
     if read_hang(work, scenarios):
         return False, gout, []
+    import vlib
+    vlib.note_crash(work.path("m5out.jsonl"), scenarios, rc, gout)
     if rc != 0 or not os.path.exists(work.path("m5out.jsonl")):
         return False, gout, []
     outs = read_jsonl(work.path("m5out.jsonl"))
